@@ -14,7 +14,24 @@ import (
 	"strconv"
 	"strings"
 	"sync"
+	"sync/atomic"
+	"time"
+	"unsafe"
 )
+
+var gStarted, gFinished int64
+
+// GStart / GDone bracket every generated goroutine; WaitAll lets main wait (bounded) for all of them.
+func GStart() { atomic.AddInt64(&gStarted, 1) }
+func GDone()  { atomic.AddInt64(&gFinished, 1) }
+func Yield()  { runtime.Gosched() }
+func WaitAll() {
+	deadline := time.Now().Add(2 * time.Second)
+	for atomic.LoadInt64(&gFinished) < atomic.LoadInt64(&gStarted) && time.Now().Before(deadline) {
+		runtime.Gosched()
+		time.Sleep(50 * time.Microsecond)
+	}
+}
 
 var Opaque uint64
 var Prog string
@@ -39,6 +56,30 @@ func init() {
 	}
 }
 
+type probeRec struct {
+	ID   int
+	Kind int
+	Addr uintptr
+	Size uintptr
+}
+
+var probes []probeRec
+var retained []unsafe.Pointer
+
+// Probe records that the pointer-like value observed by probe id refers to the memory [p, p+size). The pointer is
+// retained, so the object stays alive (and on the heap) and equal addresses within one execution mean the same object.
+func Probe(id int, kind int, p unsafe.Pointer, size uintptr) {
+	if p == nil || size == 0 {
+		return
+	}
+	mu.Lock()
+	defer mu.Unlock()
+	if len(probes) < 4000 {
+		probes = append(probes, probeRec{id, kind, uintptr(p), size})
+		retained = append(retained, p)
+	}
+}
+
 // ResetState prepares the runtime for another execution in the same process.
 func ResetState(prog string, val uint64) {
 	mu.Lock()
@@ -52,6 +93,8 @@ func ResetState(prog string, val uint64) {
 	entered = map[int]bool{}
 	calls = map[string]bool{}
 	deferOrder = nil
+	probes = nil
+	retained = nil
 	Extra = map[string]any{}
 }
 
@@ -260,6 +303,7 @@ type report struct {
 	Val      uint64     ` + "`json:\"val\"`" + `
 	Flows    [][3]int   ` + "`json:\"flows\"`" + `
 	Hops     [][3]int   ` + "`json:\"hops\"`" + `
+	Aliases  [][2]int   ` + "`json:\"aliases\"`" + `
 	Approved []int      ` + "`json:\"approved\"`" + `
 	Entered  []int      ` + "`json:\"entered\"`" + `
 	Calls    []string   ` + "`json:\"calls\"`" + `
@@ -279,6 +323,26 @@ func Dump(panicked string) {
 	}
 	for k, h := range minHops {
 		r.Hops = append(r.Hops, [3]int{k[0], k[1], h})
+	}
+	// pairs of different probes of the same kind whose memory overlapped in this execution
+	seenAlias := map[[2]int]bool{}
+	for i := 0; i < len(probes); i++ {
+		for j := i + 1; j < len(probes); j++ {
+			a, b := probes[i], probes[j]
+			if a.ID == b.ID || a.Kind != b.Kind {
+				continue
+			}
+			if a.Addr < b.Addr+b.Size && b.Addr < a.Addr+a.Size {
+				k := [2]int{a.ID, b.ID}
+				if k[0] > k[1] {
+					k = [2]int{b.ID, a.ID}
+				}
+				if !seenAlias[k] {
+					seenAlias[k] = true
+					r.Aliases = append(r.Aliases, k)
+				}
+			}
+		}
 	}
 	for a := range approved {
 		r.Approved = append(r.Approved, a)
